@@ -151,19 +151,20 @@ theorem strictlyCovers_iff' (q p : Prefix) :
 
 /-- The sections of an answer, as membership predicates over what is stored. -/
 structure SectionsOf (items : List Rec) (v : Variant) (q : Prefix) (incLess incMore : Bool)
-    (inObs : Rec → Prop) (res : QueryResult) : Prop where
+    (inObs : Rec → Prop) (reached : Rec → Prop) (res : QueryResult) : Prop where
   pfx_none : res.pfx = none → res.pfxMeta = []
   data : ∀ r, r ∈ res.pfxMeta ↔ r ∈ items ∧ r.pfx = q
   less_some : res.less.isSome = incLess
   less : ∀ r, r ∈ res.less.getD [] ↔
     incLess = true ∧ r ∈ items ∧ (r.pfx ≠ q ∧ covers r.pfx q = true) ∧ (v.lesszero = true ∨ r.pfx.len ≠ 0)
+      ∧ (v.lessstop = true ∨ reached r)
   more_some : res.more.isSome = incMore
   more : ∀ r, r ∈ res.more.getD [] ↔
     incMore = true ∧ r ∈ items ∧ (if v.more then r.pfx ≠ q ∧ covers q r.pfx = true else inObs r)
 
 theorem Store.matchPrefix_sections (v : Variant) (s : Store) (q : Prefix) (incLess incMore : Bool)
     (obs : List Prefix) :
-    SectionsOf s.items v q incLess incMore (fun r => r.pfx ∈ obs)
+    SectionsOf s.items v q incLess incMore (fun r => r.pfx ∈ obs) (fun r => s.cutShort q r = false)
       (s.matchPrefix v q incLess incMore obs) := by
   constructor
   · intro h
@@ -175,7 +176,7 @@ theorem Store.matchPrefix_sections (v : Variant) (s : Store) (q : Prefix) (incLe
   · simp only [Store.matchPrefix]; cases incLess <;> simp
   · intro r
     simp only [Store.matchPrefix]
-    cases incLess <;> simp [strictlyCovers_iff]
+    cases incLess <;> simp [strictlyCovers_iff, and_assoc]
   · simp only [Store.matchPrefix]; cases incMore <;> simp
   · intro r
     simp only [Store.matchPrefix]
@@ -220,6 +221,8 @@ theorem Rib.matchPrefix_sections (v : Variant) (rib : Rib) (q : Prefix) (l m : B
     (Gm : v.mcast = true ∨ rib.multicast.recs = []) :
     SectionsOf rib.stored v q l m
       (fun r => (r ∈ rib.unicast.items ∧ r.pfx ∈ obsU) ∨ (r ∈ rib.multicast.items ∧ r.pfx ∈ obsM))
+      (fun r => (r ∈ rib.unicast.items ∧ rib.unicast.cutShort q r = false) ∨
+                (r ∈ rib.multicast.items ∧ rib.multicast.cutShort q r = false))
       (rib.matchPrefix v q l m obsU obsM) := by
   have hu := Store.matchPrefix_sections v rib.unicast q l m obsU
   have hmc := Store.matchPrefix_sections v rib.multicast q l m obsM
@@ -249,7 +252,7 @@ theorem Rib.matchPrefix_sections (v : Variant) (rib : Rib) (q : Prefix) (l m : B
     · exact hu.pfx_none
     · intro r; rw [hu.data, hst]
     · exact hu.less_some
-    · intro r; rw [hu.less, hst]
+    · intro r; rw [hu.less, hst, hmi]; simp only [List.not_mem_nil, false_and, or_false]; grind
     · exact hu.more_some
     · intro r; rw [hu.more, hst, hmi]; cases v.more <;> simp
 
